@@ -5,6 +5,7 @@ CONSTANTS
   FailCs = {2}
   FailNs = {3}
   PruneTs = {150}
+  RgsSnaps = {}
   WithReload = TRUE
 CONSTRAINT Bound
 VIEW View
